@@ -214,6 +214,39 @@ pub fn child(thorough: bool) {
             }
         }
     }
+    // paths that are different strings but one path after normalisation (`a`, `./a`, `lib/../a`; `s1.wxs`, `./s1.wxs`): the Rust API
+    // keeps paths as given, so these are different files; an order of emission that compares anything coarser than the stored string
+    // would leave their relative order to the hash map. Every insertion order of the four templates x both script orders.
+    {
+        let alias: [(&str, &str); 4] = [("a", TEMPLATES[0].1), ("./a", "<x>{{p}}{{q}}</x>"), ("lib/../a", "<y>{{q}}</y><include src=\"b\"/>"), ("b", TEMPLATES[1].1)];
+        let alias_scripts: [(&str, &str); 2] = [("s1.wxs", "exports.g = 1"), ("./s1.wxs", "exports.g = 2")];
+        for perm in permutations(4) {
+            for so in 0..2usize {
+                let mut g = glass_easel_template_compiler::TmplGroup::new();
+                if so == 0 {
+                    g.add_script(alias_scripts[0].0, alias_scripts[0].1);
+                    g.add_script(alias_scripts[1].0, alias_scripts[1].1);
+                }
+                for i in perm.iter() {
+                    g.add_tmpl(alias[*i].0, alias[*i].1);
+                }
+                if so == 1 {
+                    g.add_script(alias_scripts[1].0, alias_scripts[1].1);
+                    g.add_script(alias_scripts[0].0, alias_scripts[0].1);
+                }
+                let mut arts = vec![];
+                arts.push(("groups".to_string(), g.get_tmpl_gen_object_groups().map_err(|e| e.message).unwrap_or_else(|e| format!("ERR {}", e))));
+                arts.push(("wx".to_string(), g.get_wx_gen_object_groups().map_err(|e| e.message).unwrap_or_else(|e| format!("ERR {}", e))));
+                arts.push(("globals".to_string(), g.export_globals().map_err(|e| e.message).unwrap_or_else(|e| format!("ERR {}", e))));
+                arts.push(("scripts".to_string(), g.export_all_scripts().map_err(|e| e.message).unwrap_or_else(|e| format!("ERR {}", e))));
+                for (p, _) in alias.iter() {
+                    arts.push((format!("gen:{}", p), g.get_tmpl_gen_object(p).map_err(|e| e.message).unwrap_or_else(|e| format!("ERR {}", e))));
+                }
+                out.builds += 1;
+                record(&mut out, "alias-paths:a+./a+lib/../a+b|scripts:s1.wxs+./s1.wxs", arts, &format!("order {:?} scripts order {}", perm, so));
+            }
+        }
+    }
     // a probe for the binding-map field map: same number of keys as template "a" uses at top level
     for _ in 0..64 {
         let mut m: HashMap<String, ()> = HashMap::new();
